@@ -132,7 +132,7 @@ def configs(T, Fc, asc, smear, tier, geom):
             if it and tform != 'fn':
                 continue
             out.append(Cfg(T=T, Fc=Fc, asc=asc, pform=pform, tform=tform, bform=bform, ip=ip, it=it, if_=if_, smear=smear,
-                           bound=True, nt=2, nf=2 if tier == 'quick' else 3, ns=2, geom=geom))
+                           bound=True, nt=2, nf=3, ns=2, geom=geom))
     return out
 
 
